@@ -48,11 +48,20 @@ def classify_store(prog, f, tt, i):
         return 'received', ''
     if v[0] in ('load',) and v[1][0] == 'elem' and v[1][1] == ('param', 1) and v[1][2] == idx:
         return 'received', 'tab[i] of set-available'
-    # (ii) received repair, linear-binary: fresh allocation filled by memcpy from the parameter
-    if v[0] == 'call' and v[1] in ALLOCATORS and idx == ('param', 2) and f.name == IT:
-        cp = [c for c in f.calls('memcpy') if tt.term(c.args[0]) in (('load', addr), v) and tt.term(c.args[1]) == ('param', 1)
-              and f.dominates(i, c)]
-        if cp and _guarded_repair(atoms, idx):
+    # (ii) received repair, linear-binary: fresh allocation filled by memcpy from the parameter (registered at once, or held in a
+    # local that is NULL on the source side and registered later under "local != NULL")
+    v2, atoms2 = v, atoms
+    if v[0] == 'phi' and idx == ('param', 2) and f.name == IT:
+        from .ir import phi_provenance_atoms
+        phi0 = f.insts[v[1]]
+        nz0 = [tt.term(x) for x in phi0.ops if tt.term(x) != ('const', 0)]
+        prov = phi_provenance_atoms(f, tt, phi0, atoms)
+        if len(nz0) == 1 and prov and nz0[0][0] == 'call' and nz0[0][1] in ALLOCATORS:
+            v2, atoms2 = nz0[0], list(atoms) + prov
+    if v2[0] == 'call' and v2[1] in ALLOCATORS and idx == ('param', 2) and f.name == IT:
+        cp = [c for c in f.calls('memcpy') if tt.term(c.args[0]) in (('load', addr), v2) and tt.term(c.args[1]) == ('param', 1)
+              and (f.dominates(i, c) or (v2 is not v and f.dominates(f.insts[v2[2]], c)))]
+        if cp and _guarded_repair(atoms2, idx):
             return 'received-repair-copy', ''
         return 'unknown', 'allocation stored for the submitted ESI without the copy of the received repair symbol'
     # (iii)/(iv) decoded: callback result, or a library buffer on the "no callback / callback returned NULL" side
